@@ -888,6 +888,38 @@ def eventauth_membershipAllower_membershipFailed : List String := [
   "return errorf(\"%q is not allowed to change the membership of %q from %q to %q as \"+format, append([]interface{}{m.senderID, m.targetID, m.oldMember.Membership, m.newMember.Membership}, args...)...)"
 ]
 
+def eventauth_type_AuthEventProvider : List String := [
+  "type AuthEventProvider interface { Create() (PDU, error) JoinRules() (PDU, error) PowerLevels() (PDU, error) Member(stateKey spec.SenderID) (PDU, error) ThirdPartyInvite(stateKey string) (PDU, error) Valid() bool }"
+]
+
+def eventauth_type_AuthEvents : List String := [
+  "type AuthEvents struct { events map[StateKeyTuple]PDU roomIDs map[string]struct{} }"
+]
+
+def eventauth_type_NotAllowed : List String := [
+  "type NotAllowed struct{ Message string }"
+]
+
+def eventauth_type_StateNeeded : List String := [
+  "type StateNeeded struct { Create bool JoinRules bool PowerLevels bool Member []string ThirdPartyInvite []string }"
+]
+
+def eventauth_type_allowerContext : List String := [
+  "type allowerContext struct { provider AuthEventProvider userIDQuerier spec.UserIDForSender createEvent PDU powerLevelsEvent PDU joinRuleEvent PDU create CreateContent creators []string privilegedCreators bool powerLevels PowerLevelContent joinRule JoinRuleContent powerLevelsErr error roomID spec.RoomID }"
+]
+
+def eventauth_type_eventAllower : List String := [
+  "type eventAllower struct { *allowerContext member MemberContent }"
+]
+
+def eventauth_type_membershipAllower : List String := [
+  "type membershipAllower struct { *allowerContext roomVersionImpl IRoomVersion thirdPartyInvite ThirdPartyInviteContent targetID string senderID string senderMember MemberContent oldMember MemberContent newMember MemberContent joinRule JoinRuleContent }"
+]
+
+def eventauth_type_membershipContent : List String := [
+  "type membershipContent struct { Membership string `json:\"membership\"` ThirdPartyInvite *MemberThirdPartyInvite `json:\"third_party_invite,omitempty\"` AuthorizedVia string `json:\"join_authorised_via_users_server,omitempty\"` MXIDMapping *MXIDMapping `json:\"mxid_mapping,omitempty\"` }"
+]
+
 def stateresolution__ResolveConflicts : List String := [
   "func func(version RoomVersion, events []PDU, authEvents []PDU, userIDForSender spec.UserIDForSender, isRejectedFn IsRejected) ([]PDU, error)",
   "type stateKeyTuple struct { Type string StateKey string }",
@@ -1237,6 +1269,18 @@ def stateresolution_stateResolver_resolveNormalBlock : List String := [
   "}",
   "}",
   "return block[0].event"
+]
+
+def stateresolution_type_conflictedEvent : List String := [
+  "type conflictedEvent struct { depth int64 eventIDSHA1 [sha1.Size]byte event PDU }"
+]
+
+def stateresolution_type_conflictedEventSorter : List String := [
+  "type conflictedEventSorter []conflictedEvent"
+]
+
+def stateresolution_type_stateResolver : List String := [
+  "type stateResolver struct { creates []PDU powerLevels []PDU joinRules []PDU thirdPartyInvites [][]PDU members [][]PDU others [][]PDU resolvedCreate PDU resolvedPowerLevels PDU resolvedJoinRules PDU resolvedThirdPartyInvites map[string]PDU resolvedMembers map[spec.SenderID]PDU result []PDU roomID string valid bool }"
 ]
 
 def stateresolutionv2__HeaderedReverseTopologicalOrdering : List String := [
@@ -1890,6 +1934,18 @@ def stateresolutionv2_stateResolverV2_wrapPowerLevelEventsForSort : List String 
   "return block"
 ]
 
+def stateresolutionv2_type_IsRejected : List String := [
+  "type IsRejected func(eventID string) bool"
+]
+
+def stateresolutionv2_type_TopologicalOrder : List String := [
+  "type TopologicalOrder int"
+]
+
+def stateresolutionv2_type_stateResolverV2 : List String := [
+  "type stateResolverV2 struct { allower *allowerContext authProvider *AuthEvents authEventMap map[string]PDU conflictedEventMap map[string]PDU powerLevelContents map[string]*PowerLevelContent powerLevelMainlinePos map[string]int resolvedCreate PDU createEvent PDU resolvedPowerLevels PDU resolvedJoinRules PDU resolvedThirdPartyInvites map[string]PDU resolvedMembers map[spec.SenderID]PDU resolvedOthers map[StateKeyTuple]PDU result []PDU isRejectedFn IsRejected isRejectedCache map[string]bool }"
+]
+
 def stateresolutionv2heaps__sortStateResV2ConflictedOtherHeap : List String := [
   "func func(a, b *stateResV2ConflictedOther) int",
   "if a.mainlinePosition < b.mainlinePosition {",
@@ -1958,6 +2014,22 @@ def stateresolutionv2heaps_stateResV2ConflictedPowerLevelHeap_Push : List String
   "*s = append(*s, x)"
 ]
 
-def functions : List String := ["eventauth.go:AuthEvents.AddEvent", "eventauth.go:AuthEvents.Clear", "eventauth.go:AuthEvents.Create", "eventauth.go:AuthEvents.JoinRules", "eventauth.go:AuthEvents.Member", "eventauth.go:AuthEvents.PowerLevels", "eventauth.go:AuthEvents.ThirdPartyInvite", "eventauth.go:AuthEvents.Valid", "eventauth.go:NotAllowed.Error", "eventauth.go:StateNeeded.AuthEventReferences", "eventauth.go:StateNeeded.Tuples", "eventauth.go:.Allowed", "eventauth.go:.NewAuthEvents", "eventauth.go:.StateNeededForAuth", "eventauth.go:.StateNeededForProtoEvent", "eventauth.go:.accumulateStateNeeded", "eventauth.go:.allowRestrictedJoins", "eventauth.go:.checkEventLevels", "eventauth.go:.checkKnocking", "eventauth.go:.checkNotificationLevels", "eventauth.go:.checkPowerLevelEventV1", "eventauth.go:.checkPowerLevelEventV2", "eventauth.go:.checkPowerLevelEventV3", "eventauth.go:.checkUserLevels", "eventauth.go:.disallowKnocking", "eventauth.go:.disallowRestrictedJoins", "eventauth.go:.errorf", "eventauth.go:.newAllowerContext", "eventauth.go:.thirdPartyInviteToken", "eventauth.go:allowerContext.aliasEventAllowed", "eventauth.go:allowerContext.allowed", "eventauth.go:allowerContext.createEventAllowed", "eventauth.go:allowerContext.defaultEventAllowed", "eventauth.go:allowerContext.memberEventAllowed", "eventauth.go:allowerContext.newEventAllower", "eventauth.go:allowerContext.newMembershipAllower", "eventauth.go:allowerContext.powerLevelsEventAllowed", "eventauth.go:allowerContext.redactEventAllowed", "eventauth.go:allowerContext.resetCreate", "eventauth.go:allowerContext.update", "eventauth.go:allowerContext.userPowerLevel", "eventauth.go:eventAllower.commonChecks", "eventauth.go:membershipAllower.membershipAllowed", "eventauth.go:membershipAllower.membershipAllowedFromThirdPartyInvite", "eventauth.go:membershipAllower.membershipAllowedOther", "eventauth.go:membershipAllower.membershipAllowedSelf", "eventauth.go:membershipAllower.membershipAllowedSelfForRestrictedJoin", "eventauth.go:membershipAllower.membershipFailed", "stateresolution.go:.ResolveConflicts", "stateresolution.go:.ResolveConflictsNew", "stateresolution.go:.ResolveStateConflicts", "stateresolution.go:.sortConflictedEventsByDepthAndSHA1", "stateresolution.go:.splitConflictedUnconflicted", "stateresolution.go:conflictedEventSorter.Len", "stateresolution.go:conflictedEventSorter.Less", "stateresolution.go:conflictedEventSorter.Swap", "stateresolution.go:stateResolver.Create", "stateresolution.go:stateResolver.JoinRules", "stateresolution.go:stateResolver.Member", "stateresolution.go:stateResolver.PowerLevels", "stateresolution.go:stateResolver.ThirdPartyInvite", "stateresolution.go:stateResolver.Valid", "stateresolution.go:stateResolver.addAuthEvent", "stateresolution.go:stateResolver.addConflicted", "stateresolution.go:stateResolver.authEventAt", "stateresolution.go:stateResolver.removeAuthEvent", "stateresolution.go:stateResolver.resolveAndAddAuthBlocks", "stateresolution.go:stateResolver.resolveAuthBlock", "stateresolution.go:stateResolver.resolveNormalBlock", "stateresolutionv2.go:.HeaderedReverseTopologicalOrdering", "stateresolutionv2.go:.ResolveStateConflictsV2", "stateresolutionv2.go:.ResolveStateConflictsV2New", "stateresolutionv2.go:.ReverseTopologicalOrdering", "stateresolutionv2.go:.creatorsFromCreateEventOrNone", "stateresolutionv2.go:.eventMapFromEvents", "stateresolutionv2.go:.getCreateEvent", "stateresolutionv2.go:.isControlEvent", "stateresolutionv2.go:.kahnsAlgorithmUsingAuthEvents", "stateresolutionv2.go:.kahnsAlgorithmUsingPrevEvents", "stateresolutionv2.go:.newPDUSet", "stateresolutionv2.go:stateResolverV2.applyEvents", "stateresolutionv2.go:stateResolverV2.authAndApplyEvents", "stateresolutionv2.go:stateResolverV2.calculateAuthDifference", "stateresolutionv2.go:stateResolverV2.calculateAuthDifferenceNew", "stateresolutionv2.go:stateResolverV2.calculateFullAuthChainAndConflictedSubgraph", "stateresolutionv2.go:stateResolverV2.createPowerLevelMainline", "stateresolutionv2.go:stateResolverV2.getFirstPowerLevelMainlineEvent", "stateresolutionv2.go:stateResolverV2.getPowerLevelFromAuthEvents", "stateresolutionv2.go:stateResolverV2.mainlineOrdering", "stateresolutionv2.go:stateResolverV2.reverseTopologicalOrdering", "stateresolutionv2.go:stateResolverV2.wrapOtherEventsForSort", "stateresolutionv2.go:stateResolverV2.wrapPowerLevelEventsForSort", "stateresolutionv2heaps.go:.sortStateResV2ConflictedOtherHeap", "stateresolutionv2heaps.go:.sortStateResV2ConflictedPowerLevelHeap", "stateresolutionv2heaps.go:stateResV2ConflictedOtherHeap.Pop", "stateresolutionv2heaps.go:stateResV2ConflictedOtherHeap.Push", "stateresolutionv2heaps.go:stateResV2ConflictedPowerLevelHeap.Pop", "stateresolutionv2heaps.go:stateResV2ConflictedPowerLevelHeap.Push"]
+def stateresolutionv2heaps_type_stateResV2ConflictedOther : List String := [
+  "type stateResV2ConflictedOther struct { mainlinePosition int mainlineSteps int originServerTS spec.Timestamp eventID string event PDU }"
+]
+
+def stateresolutionv2heaps_type_stateResV2ConflictedOtherHeap : List String := [
+  "type stateResV2ConflictedOtherHeap []*stateResV2ConflictedOther"
+]
+
+def stateresolutionv2heaps_type_stateResV2ConflictedPowerLevel : List String := [
+  "type stateResV2ConflictedPowerLevel struct { powerLevel int64 originServerTS spec.Timestamp eventID string event PDU }"
+]
+
+def stateresolutionv2heaps_type_stateResV2ConflictedPowerLevelHeap : List String := [
+  "type stateResV2ConflictedPowerLevelHeap []*stateResV2ConflictedPowerLevel"
+]
+
+def functions : List String := ["eventauth.go:AuthEvents.AddEvent", "eventauth.go:AuthEvents.Clear", "eventauth.go:AuthEvents.Create", "eventauth.go:AuthEvents.JoinRules", "eventauth.go:AuthEvents.Member", "eventauth.go:AuthEvents.PowerLevels", "eventauth.go:AuthEvents.ThirdPartyInvite", "eventauth.go:AuthEvents.Valid", "eventauth.go:NotAllowed.Error", "eventauth.go:StateNeeded.AuthEventReferences", "eventauth.go:StateNeeded.Tuples", "eventauth.go:.Allowed", "eventauth.go:.NewAuthEvents", "eventauth.go:.StateNeededForAuth", "eventauth.go:.StateNeededForProtoEvent", "eventauth.go:.accumulateStateNeeded", "eventauth.go:.allowRestrictedJoins", "eventauth.go:.checkEventLevels", "eventauth.go:.checkKnocking", "eventauth.go:.checkNotificationLevels", "eventauth.go:.checkPowerLevelEventV1", "eventauth.go:.checkPowerLevelEventV2", "eventauth.go:.checkPowerLevelEventV3", "eventauth.go:.checkUserLevels", "eventauth.go:.disallowKnocking", "eventauth.go:.disallowRestrictedJoins", "eventauth.go:.errorf", "eventauth.go:.newAllowerContext", "eventauth.go:.thirdPartyInviteToken", "eventauth.go:allowerContext.aliasEventAllowed", "eventauth.go:allowerContext.allowed", "eventauth.go:allowerContext.createEventAllowed", "eventauth.go:allowerContext.defaultEventAllowed", "eventauth.go:allowerContext.memberEventAllowed", "eventauth.go:allowerContext.newEventAllower", "eventauth.go:allowerContext.newMembershipAllower", "eventauth.go:allowerContext.powerLevelsEventAllowed", "eventauth.go:allowerContext.redactEventAllowed", "eventauth.go:allowerContext.resetCreate", "eventauth.go:allowerContext.update", "eventauth.go:allowerContext.userPowerLevel", "eventauth.go:eventAllower.commonChecks", "eventauth.go:membershipAllower.membershipAllowed", "eventauth.go:membershipAllower.membershipAllowedFromThirdPartyInvite", "eventauth.go:membershipAllower.membershipAllowedOther", "eventauth.go:membershipAllower.membershipAllowedSelf", "eventauth.go:membershipAllower.membershipAllowedSelfForRestrictedJoin", "eventauth.go:membershipAllower.membershipFailed", "eventauth.go:type AuthEventProvider", "eventauth.go:type AuthEvents", "eventauth.go:type NotAllowed", "eventauth.go:type StateNeeded", "eventauth.go:type allowerContext", "eventauth.go:type eventAllower", "eventauth.go:type membershipAllower", "eventauth.go:type membershipContent", "stateresolution.go:.ResolveConflicts", "stateresolution.go:.ResolveConflictsNew", "stateresolution.go:.ResolveStateConflicts", "stateresolution.go:.sortConflictedEventsByDepthAndSHA1", "stateresolution.go:.splitConflictedUnconflicted", "stateresolution.go:conflictedEventSorter.Len", "stateresolution.go:conflictedEventSorter.Less", "stateresolution.go:conflictedEventSorter.Swap", "stateresolution.go:stateResolver.Create", "stateresolution.go:stateResolver.JoinRules", "stateresolution.go:stateResolver.Member", "stateresolution.go:stateResolver.PowerLevels", "stateresolution.go:stateResolver.ThirdPartyInvite", "stateresolution.go:stateResolver.Valid", "stateresolution.go:stateResolver.addAuthEvent", "stateresolution.go:stateResolver.addConflicted", "stateresolution.go:stateResolver.authEventAt", "stateresolution.go:stateResolver.removeAuthEvent", "stateresolution.go:stateResolver.resolveAndAddAuthBlocks", "stateresolution.go:stateResolver.resolveAuthBlock", "stateresolution.go:stateResolver.resolveNormalBlock", "stateresolution.go:type conflictedEvent", "stateresolution.go:type conflictedEventSorter", "stateresolution.go:type stateResolver", "stateresolutionv2.go:.HeaderedReverseTopologicalOrdering", "stateresolutionv2.go:.ResolveStateConflictsV2", "stateresolutionv2.go:.ResolveStateConflictsV2New", "stateresolutionv2.go:.ReverseTopologicalOrdering", "stateresolutionv2.go:.creatorsFromCreateEventOrNone", "stateresolutionv2.go:.eventMapFromEvents", "stateresolutionv2.go:.getCreateEvent", "stateresolutionv2.go:.isControlEvent", "stateresolutionv2.go:.kahnsAlgorithmUsingAuthEvents", "stateresolutionv2.go:.kahnsAlgorithmUsingPrevEvents", "stateresolutionv2.go:.newPDUSet", "stateresolutionv2.go:stateResolverV2.applyEvents", "stateresolutionv2.go:stateResolverV2.authAndApplyEvents", "stateresolutionv2.go:stateResolverV2.calculateAuthDifference", "stateresolutionv2.go:stateResolverV2.calculateAuthDifferenceNew", "stateresolutionv2.go:stateResolverV2.calculateFullAuthChainAndConflictedSubgraph", "stateresolutionv2.go:stateResolverV2.createPowerLevelMainline", "stateresolutionv2.go:stateResolverV2.getFirstPowerLevelMainlineEvent", "stateresolutionv2.go:stateResolverV2.getPowerLevelFromAuthEvents", "stateresolutionv2.go:stateResolverV2.mainlineOrdering", "stateresolutionv2.go:stateResolverV2.reverseTopologicalOrdering", "stateresolutionv2.go:stateResolverV2.wrapOtherEventsForSort", "stateresolutionv2.go:stateResolverV2.wrapPowerLevelEventsForSort", "stateresolutionv2.go:type IsRejected", "stateresolutionv2.go:type TopologicalOrder", "stateresolutionv2.go:type stateResolverV2", "stateresolutionv2heaps.go:.sortStateResV2ConflictedOtherHeap", "stateresolutionv2heaps.go:.sortStateResV2ConflictedPowerLevelHeap", "stateresolutionv2heaps.go:stateResV2ConflictedOtherHeap.Pop", "stateresolutionv2heaps.go:stateResV2ConflictedOtherHeap.Push", "stateresolutionv2heaps.go:stateResV2ConflictedPowerLevelHeap.Pop", "stateresolutionv2heaps.go:stateResV2ConflictedPowerLevelHeap.Push", "stateresolutionv2heaps.go:type stateResV2ConflictedOther", "stateresolutionv2heaps.go:type stateResV2ConflictedOtherHeap", "stateresolutionv2heaps.go:type stateResV2ConflictedPowerLevel", "stateresolutionv2heaps.go:type stateResV2ConflictedPowerLevelHeap"]
 
 end VPins.C10
